@@ -332,6 +332,12 @@ def hist_items(tier):
 
 def sim_items(tier):
     out = []
+    # 12 tasks in three layers (FS only) and a chain of ten: larger networks under simulation
+    tasks = [{"name": F.tname(i), "work": float(1 + (i * 3) % 4)} for i in range(12)]
+    links = [[layer * 4 + j, (layer + 1) * 4 + (j + d) % 4, "FS"] for layer in range(2) for j in range(4) for d in (0, 1)]
+    out.append((F.with_teams({"tasks": tasks, "links": links}, "POOL3"), {"rule": "TSLACK", "max_time": 60, "phases": ("updated",)}))
+    out.append((F.with_teams({"tasks": [{"name": F.tname(i), "work": float(1 + i % 3)} for i in range(10)], "links": [[i, i + 1, "FS"] for i in range(9)]}, "POOL2"),
+                {"rule": "TSLACK", "max_time": 60, "phases": ("updated",)}))
     for fl in F.flows(3, ("FS",), (1, 2) if tier == "quick" else (1, 2, 3)):
         for lay in ("POOL1", "POOL2"):
             sp = F.with_teams(fl, lay)
